@@ -240,33 +240,8 @@ def run(repo: Repo, rep: Report, tier: str) -> None:
                 bad = [str(l) for l in leaves if "position" in l.text or "relay" in l.text.lower()]
                 rep.check(not bad, "C19-R4", f"{m.short}: `{norm(n.targets[0])[:60]}` does not depend on positions", f"derives from {sorted(str(l) for l in leaves if l.kind != 'const')[:6]}", m.loc(n))
     rep.floor("C19-R4", "wire-selection stores", n_cfg, 4)
-    mst = repo.func("ConnectionPlanner._apply_mst_to_source_fanout")
-    dum = DefUse(mst)
-    pmm = parents_map(mst.node)
-    n_keys = 0
-    for n in walk_local(mst.node):
-        key = None
-        how = None
-        if isinstance(n, ast.Assign) and isinstance(n.targets[0], ast.Subscript) and norm(n.targets[0].value) == "self._edge_wire_colors":
-            key, how = n.targets[0].slice, "store"
-        elif isinstance(n, ast.Call) and call_name(n) == "setdefault" and norm(n.func.value) == "self._edge_wire_colors":
-            key, how = n.args[0], "setdefault"
-        if key is None:
-            continue
-        leaves = dum.leaves(key)
-        positional = any(l.kind == "call" and "minimum_spanning_tree" in l.text for l in leaves) or any("mst_edges" in norm(v) for x in ast.walk(key) if isinstance(x, ast.Name) for v in dum.value_exprs(x.id))
-        if not positional:
-            continue
-        n_keys += 1
-        st = n
-        while not isinstance(st, ast.stmt):
-            st = pmm[st]
-        guarded = how == "setdefault" or any(isinstance(t, ast.Compare) and isinstance(t.ops[0], ast.NotIn) and norm(t.comparators[0]) == "self._edge_wire_colors" and norm(t.left) == norm(key) and pol
-                                            for t, pol in guard_chain(mst, st, pmm))
-        rep.check(guarded, "C19-R4", f"{mst.short}: colour under position-derived key `{norm(key)}` never replaces an existing entry",
-                  "guarded by `not in` / setdefault" if guarded else
-                  "which pairs the spanning tree joins depends on placement; an unguarded store under such a key can overwrite the colour recorded for a real producer->consumer edge of the same signal", mst.loc(n))
-    rep.floor("C19-R4", "colour stores under spanning-tree keys", n_keys, 2)
+    from .shared import mst_colour_keys
+    mst_colour_keys(repo, rep, "C19-R4")
     wr = repo.module("layout.wire_router")
     pos_reads = [n for f in wr.funcs.values() for n in walk_local(f.node) if isinstance(n, ast.Attribute) and n.attr == "position"]
     rep.check(not pos_reads, "C19-R4", "wire colouring (wire_router) never reads a position", f"{len(pos_reads)} reads of .position", wr.rel + ":1")
